@@ -84,7 +84,23 @@ pub mod shadow {
             pub fn bitand(self, o: Self) -> Self { $name(self.0 & o.0) }
             pub fn bitor(self, o: Self) -> Self { $name(self.0 | o.0) }
             pub fn bitxor(self, o: Self) -> Self { $name(self.0 ^ o.0) }
+            // bit-counting helpers a change may use (vocabulary): Rust's semantics
+            pub fn leading_zeros(self) -> u32 { u32(self.0.leading_zeros()) }
+            pub fn leading_ones(self) -> u32 { u32(self.0.leading_ones()) }
+            pub fn trailing_zeros(self) -> u32 { u32(self.0.trailing_zeros()) }
+            pub fn count_ones(self) -> u32 { u32(self.0.count_ones()) }
+            pub fn wrapping_shl(self, n: u32) -> Self { $name(self.0.wrapping_shl(n.0)) }
+            pub fn wrapping_shr(self, n: u32) -> Self { $name(self.0.wrapping_shr(n.0)) }
         }
+        impl core::ops::BitXor for $name { type Output = $name; fn bitxor(self, o: Self) -> Self { $name(self.0 ^ o.0) } }
+        impl core::ops::BitAnd for $name { type Output = $name; fn bitand(self, o: Self) -> Self { $name(self.0 & o.0) } }
+        impl core::ops::BitOr for $name { type Output = $name; fn bitor(self, o: Self) -> Self { $name(self.0 | o.0) } }
+        impl core::ops::Not for $name { type Output = $name; fn not(self) -> Self { $name(!self.0) } }
+        impl core::ops::Shr<core::primitive::u32> for $name { type Output = $name; fn shr(self, n: core::primitive::u32) -> Self { $name(self.0 >> n) } }
+        impl core::ops::Shl<core::primitive::u32> for $name { type Output = $name; fn shl(self, n: core::primitive::u32) -> Self { $name(self.0 << n) } }
+        impl core::ops::Shr<u32> for $name { type Output = $name; fn shr(self, n: u32) -> Self { $name(self.0 >> n.0) } }
+        impl core::ops::Shl<u32> for $name { type Output = $name; fn shl(self, n: u32) -> Self { $name(self.0 << n.0) } }
+        impl PartialOrd for $name { fn partial_cmp(&self, o: &Self) -> Option<core::cmp::Ordering> { self.0.partial_cmp(&o.0) } }
         impl Amt for $name { type C = $core; fn c(self) -> $core { self.0 } }
         impl core::fmt::Display for $name { fn fmt(&self, _f: &mut core::fmt::Formatter<'_>) -> core::fmt::Result { Ok(()) } }
         impl ToLit for $name { fn to_lit(&self) -> Lit { Lit::int(self.0 as core::primitive::i128) } }
@@ -94,7 +110,11 @@ pub mod shadow {
     int_shadow!(i32, core::primitive::i32, 0);
     int_shadow!(i128, core::primitive::i128, 1);
     int_shadow!(u8, core::primitive::u8, 3);
-    #[allow(non_camel_case_types)] #[derive(Clone, Copy, Debug, PartialEq)] pub struct u32(pub core::primitive::u32);
+    #[allow(non_camel_case_types)] #[derive(Clone, Copy, Debug, PartialEq, PartialOrd, Eq, Ord)] pub struct u32(pub core::primitive::u32);
+    impl PartialEq<core::primitive::u32> for u32 { fn eq(&self, o: &core::primitive::u32) -> bool { self.0 == *o } }
+    impl PartialOrd<core::primitive::u32> for u32 { fn partial_cmp(&self, o: &core::primitive::u32) -> Option<core::cmp::Ordering> { self.0.partial_cmp(o) } }
+    impl core::ops::Sub<core::primitive::u32> for u32 { type Output = u32; fn sub(self, o: core::primitive::u32) -> u32 { u32(self.0 - o) } }
+    impl core::ops::Add<core::primitive::u32> for u32 { type Output = u32; fn add(self, o: core::primitive::u32) -> u32 { u32(self.0 + o) } }
     impl FromLit for u32 { fn from_lit(l: &Lit) -> core::result::Result<Self, ParseErr> { if !l.is_float() && l.i() >= 0 && l.i() <= core::primitive::u32::MAX as core::primitive::i128 { Ok(u32(l.i() as core::primitive::u32)) } else { Err(ParseErr) } } }
     impl Amt for u32 { type C = core::primitive::u32; fn c(self) -> core::primitive::u32 { self.0 } }
     impl core::fmt::Display for u32 { fn fmt(&self, _f: &mut core::fmt::Formatter<'_>) -> core::fmt::Result { Ok(()) } }
@@ -209,7 +229,7 @@ OPS = ["add", "sub", "mul", "div", "rem", "bitand", "bitor", "bitxor", "shl", "s
 class FoldUnit:
     engine = "kani"
     uid = "c06_fold"
-    props = ["C06", "C16"]
+    props = ["C06", "C16", "C05"]
     title = "constant folding of numeric literals agrees with the run-time spec (K-t, all kind pairs)"
     timeout = 3000
     assumes = [
@@ -258,7 +278,7 @@ class FoldUnit:
         obls = []
         for n, call, oid, bounded in hs:
             r = per.get(n)
-            o = Obl(oid, ["C06"], fn=n, engine="kani/cbmc", bounded=("right operand < 2^8" if bounded else False),
+            o = Obl(oid, ["C06", "C05"], fn=n, engine="kani/cbmc", bounded=("right operand < 2^8" if bounded else False),
                     desc=f"{call}: folded kind/value == run-time kind/value; folder rejects exactly when the run time fails")
             o16 = Obl("C16.nopanic.fold." + oid[4:].split("[")[0], ["C16"], fn=n, engine="kani/cbmc", bounded=("right operand < 2^8" if bounded else False),
                       desc=f"the folder never panics on literal operands [{call}]")
